@@ -314,7 +314,7 @@ func runC15(c Case, tier string) (res CaseResult) {
 		// fork: Cancun with 0x5c/0x5d; reference: Shanghai + EIP-1153 with 0xb3/0xb4
 		mk := func(tl, tsb byte) DualCase {
 			return genDual(c.Seed, h.Shanghai, func(o *h.GenOpts) {
-				o.Cancun, o.NoMcopy, o.TloadByte, o.TstoreByte, o.CallBias = true, true, tl, tsb, 25
+				o.Cancun, o.NoMcopy, o.TloadByte, o.TstoreByte, o.CallBias, o.NoInvalid = true, true, tl, tsb, 25, true
 			})
 		}
 		df, dr := mk(0, 0), mk(0xb3, 0xb4)
@@ -332,7 +332,15 @@ func runC15(c Case, tier string) (res CaseResult) {
 		fres := fs.Invoke(df.Tx)
 		res.Evals = 2
 		// domain: no create inside (code bytes differ -> code hashes / CREATE2 addresses differ), no code introspection, no other non-standard byte
-		if !c15DiffDomain(fs.L) || !c15DiffDomain(rs.L) {
+		foreign := func(l *h.Log, a, b byte) bool {
+			for i := range l.Events {
+				if e := &l.Events[i]; (e.K == h.KStep || e.K == h.KFault) && (e.Op == a || e.Op == b) {
+					return true
+				}
+			}
+			return false
+		}
+		if !c15DiffDomain(fs.L) || !c15DiffDomain(rs.L) || foreign(fs.L, 0xb3, 0xb4) || foreign(rs.L, 0x5c, 0x5d) {
 			res.Count("diff_out_of_domain", 1)
 			return
 		}
@@ -373,6 +381,13 @@ func runC15(c Case, tier string) (res CaseResult) {
 		for f := h.Frontier; f < h.Cancun; f++ {
 			for _, op := range []byte{h.TLOAD, h.TSTORE, h.MCOPY} {
 				a := h.NewAsm().PushU(0).PushU(0).PushU(0).Op(op, h.STOP)
+				if f >= h.Istanbul {
+					// another EVM on the same fork has the two EIPs switched on as extras: that must not leak into plain EVMs
+					fx := h.NewForkSession(h.BaseWorld([][]byte{a.Bytes()}), h.EnvSpec{Fork: f, ExtraEips: []int{1153, 5656}}, h.ForkOpts{})
+					if ix := fx.Invoke(h.TxSpec{Entry: h.ECall, From: h.Sender, To: h.ContractAddr(0), Gas: 100000}); ix.Err != nil || ix.Panic != "" {
+						res.Fail(Key("extra-eip-not-enabled", fmt.Sprintf("op%02x", op)), fmt.Sprintf("byte %#x with extra EIPs 1153+5656 on %s: %v %s", op, f, ix.Err, firstLine(ix.Panic)))
+					}
+				}
 				fs := h.NewForkSession(h.BaseWorld([][]byte{a.Bytes()}), h.EnvSpec{Fork: f}, h.ForkOpts{Debug: true, RecSteps: true})
 				ir := fs.Invoke(h.TxSpec{Entry: h.ECall, From: h.Sender, To: h.ContractAddr(0), Gas: 100000})
 				n++
@@ -435,6 +450,12 @@ func c15DiffDomain(l *h.Log) bool {
 		e := &l.Events[i]
 		if e.K != h.KStep {
 			continue
+		}
+		// a byte that means something else in the other encoding (reached through raw / mutated bytes)
+		if e.Op == 0xb3 || e.Op == 0xb4 || e.Op == 0x5c || e.Op == 0x5d || e.Op == 0x5e {
+			if !(e.Err == "" && (e.Op == h.TLOAD || e.Op == h.TSTORE || e.Op == 0xb3 || e.Op == 0xb4)) {
+				return false
+			}
 		}
 		switch e.Op {
 		case h.CREATE, h.CREATE2, h.CODECOPY, h.EXTCODECOPY, h.EXTCODEHASH, h.CODESIZE, h.MCOPY:
